@@ -85,12 +85,18 @@ Lemma vroot_eqb_eq a b : vroot_eqb a b = true <-> a = b.
 Proof. destruct a, b; cbn; split; congruence. Qed.
 Lemma vtype_eqb_eq a b : vtype_eqb a b = true <-> a = b.
 Proof.
-  unfold vtype_eqb. rewrite andb_true_iff, vroot_eqb_eq, list_nat_eqb_eq.
-  destruct a, b; cbn; split; [intros [-> ->]; reflexivity | intro H; inversion H; auto].
+  unfold vtype_eqb. rewrite !andb_true_iff, vroot_eqb_eq, !list_nat_eqb_eq.
+  destruct a, b; cbn; split; [intros [[-> ->] ->]; reflexivity | intro H; inversion H; auto].
 Qed.
 
-Lemma is_sub_root a b : is_sub a b = true -> vt_root a = vt_root b.
-Proof. unfold is_sub. rewrite andb_true_iff, vroot_eqb_eq. tauto. Qed.
+(* a type without a builtin base has no superclass with a builtin base *)
+Lemma is_sub_root a b : is_sub a b = true -> vt_root a = KObj -> vt_root b = KObj.
+Proof.
+  unfold is_sub. rewrite orb_true_iff. intros [H|H] Ha.
+  - apply vtype_eqb_eq in H. now subst.
+  - apply andb_true_iff in H. destruct H as [_ H]. apply orb_true_iff in H. destruct H as [H|H];
+      apply andb_true_iff in H; destruct H as [H _]; apply vroot_eqb_eq in H; congruence.
+Qed.
 
 (* ---------------------------------------------------------------- association lists *)
 Lemma assoc_s_in {A} k (l : list (pstr * A)) v : assoc_s k l = Some v -> In (k, v) l.
